@@ -892,6 +892,9 @@ class Interp(object):
                 raise Unsupported('symbolic index into concrete container')
             o[k] = v
             return
+        if isinstance(o, SObj) and o.cls in SETTER_CLASSES:
+            self.obj_special(o, '__setitem__', [k, v])
+            return
         raise Unsupported('item store on %r' % (o,))
 
     def key_term(self, k):
